@@ -18,7 +18,7 @@ EXTENDS ResourceRules, TLC
 CONSTANTS Peers, OpsM, MaxConn, LimDht, LimMcp, BurstC, IvM, IvH, IvC, ShutTo, AcqTo,
           MaxTime, MaxOps, MaxIds, MaxTasks, RecBytes, Advances
 
-ASSUME BurstC >= 1 /\ LimDht >= 1 /\ LimMcp >= 1 /\ Expire * Lo(LimDht, LimMcp) >= BurstC /\ RecBytes * TPS >= MaxTime
+ASSUME BurstC >= 1 /\ LimDht >= 1 /\ LimMcp >= 1 /\ Expire * Lo(LimDht, LimMcp) >= BurstC /\ RecBytes * TPS >= MaxTime + AcqTo
 
 Cfg == [max |-> MaxConn, dht |-> LimDht, mcp |-> LimMcp, message |-> LimMcp, burst |-> BurstC, ivM |-> IvM, ivH |-> IvH,
         ivC |-> IvC, track |-> TRUE, cleanup |-> TRUE, shutTo |-> ShutTo, acqTo |-> AcqTo, maxMem |-> 1]
@@ -45,7 +45,7 @@ Do(e) ==
   /\ nops' = nops + 1
   /\ IF r.coll
      THEN \E opt \in CollectOptions(r.s, r.s.now, r.s.now) :
-            /\ st' = ApplyCollect(r.s, opt, opt.lo, r.s.now, r.s.now)
+            /\ st' = ApplyCollect(r.s, opt, opt.lo, r.s.now, r.s.now, r.cavail)
             /\ missed' = (missed \/ (r.s.bytes > 0 /\ r.s.now > r.s.rLo /\ opt.lo = 0))
      ELSE st' = r.s /\ UNCHANGED missed
   /\ last' = [op |-> e.op, p |-> e.p, o |-> e.o, ok |-> r.ok, settled |-> e.settle \/ r.s.now > st.now]
